@@ -189,7 +189,17 @@ func c09Payload(c *Ctx, p *Prog) {
 	okWS := len(ws) == 2 && ws[0] == "Beep" && ws[1] == "drawCell"
 	c.Check(okWS, "C09-R4", "writeString:callers", "-", fmt.Sprintf("callers of writeString: %v (payload writer drawCell and the bell only; not counted: wrappers that write one expanded capability %v)", ws, textEmitterNames(p)))
 	er := callers("tScreen).encodeRune")
-	c.Check(len(er) == 1 && er[0] == "drawCell", "C09-R4", "encodeRune:callers", "-", fmt.Sprintf("callers of encodeRune: %v", er))
+	okER := len(er) >= 1
+	for _, name := range er {
+		if name == "drawCell" {
+			continue
+		}
+		// a helper of the painter (`cellText(mainc, combc)`): used by drawCell only
+		if h := p.Fn("tcell:(*tScreen)." + name); h == nil || !calledOnlyFrom(p, h, map[string]bool{"drawCell": true}, 1) {
+			okER = false
+		}
+	}
+	c.Check(okER, "C09-R4", "encodeRune:callers", "-", fmt.Sprintf("callers of encodeRune: %v (drawCell, or helpers only drawCell uses)", er))
 	// the runes handed to encodeRune in drawCell come from GetContent
 	dc := p.Fn("tcell:(*tScreen).drawCell")
 	if dc == nil {
@@ -198,24 +208,9 @@ func c09Payload(c *Ctx, p *Prog) {
 	}
 	ok := true
 	n := 0
-	for _, call := range callsIn(dc, func(nm string, _ *ssa.CallCommon) bool { return strings.HasSuffix(nm, "tScreen).encodeRune") }) {
+	for _, f := range encodeRuneFeeds(p, dc) {
 		n++
-		arg := derefCell(callCommon(call).Args[1])
-		src := ""
-		switch x := arg.(type) {
-		case *ssa.Extract:
-			if cl, isCall := x.Tuple.(*ssa.Call); isCall && strings.HasSuffix(calleeName(&cl.Call), "CellBuffer).GetContent") && x.Index == 0 {
-				src = "GetContent#0"
-			}
-		case *ssa.UnOp:
-			// range element of combc = GetContent#1
-			if ia, isIA := x.X.(*ssa.IndexAddr); isIA {
-				if ex, isEx := derefCell(ia.X).(*ssa.Extract); isEx && ex.Index == 1 {
-					src = "GetContent#1[i]"
-				}
-			}
-		}
-		if src == "" {
+		if f.src == "" {
 			ok = false
 		}
 	}
@@ -290,6 +285,17 @@ func classifyEmit(p *Prog, v ssa.Value, depth int) []emitSrc {
 		}
 		if strings.HasSuffix(n, "Terminfo).TGoto") {
 			return []emitSrc{{kind: "field", name: "SetCursor", tparm: true, kinds: []string{"int", "int"}}}
+		}
+		// a helper of the painter that builds the cell's text (`str := t.cellText(mainc, combc)`):
+		// whatever it returns
+		if h := x.Call.StaticCallee(); h != nil && h.Pkg == p.Tcell && len(h.Blocks) > 0 && h.Signature.Results().Len() == 1 && len(callsIn(h, func(nm string, _ *ssa.CallCommon) bool { return strings.HasSuffix(nm, "tScreen).encodeRune") })) > 0 {
+			var out []emitSrc
+			for _, r := range returnsOf(h) {
+				out = append(out, classifyEmit(p, derefCell(resultOf(r, 0)), depth+1)...)
+			}
+			if len(out) > 0 {
+				return out
+			}
 		}
 	case *ssa.Convert:
 		// string(buf): encoded cell payload
@@ -1077,4 +1083,57 @@ func onlyCalledStatically(p *Prog, fn *ssa.Function) bool {
 		}
 	}
 	return ok
+}
+
+// encodeRuneFeed: one encodeRune call of the cell painter (in drawCell or in a helper it hands the
+// cell's runes to), with where its rune comes from ("GetContent#0", "GetContent#1[i]" or "") and the
+// conditions it is made under.
+type encodeRuneFeed struct {
+	call   ssa.Instruction
+	src    string
+	guards []rawGuard
+}
+
+func encodeRuneFeeds(p *Prog, dc *ssa.Function) []encodeRuneFeed {
+	var out []encodeRuneFeed
+	for _, d := range deepInstrs(p, dc, 1, nil) {
+		cc := callCommon(d.in)
+		if cc == nil || !strings.HasSuffix(calleeName(cc), "tScreen).encodeRune") {
+			continue
+		}
+		// a helper's parameter stands for the argument drawCell passed
+		bind := func(v ssa.Value) ssa.Value {
+			v = derefCell(v)
+			if pa, ok := v.(*ssa.Parameter); ok && len(d.chain) > 0 {
+				if site := callCommon(d.chain[len(d.chain)-1]); site != nil {
+					for i, q := range d.in.Parent().Params {
+						if q == pa && i < len(site.Args) {
+							return derefCell(site.Args[i])
+						}
+					}
+				}
+			}
+			return v
+		}
+		fromGetContent := func(v ssa.Value, idx int) bool {
+			ex, ok := bind(v).(*ssa.Extract)
+			if !ok || ex.Index != idx {
+				return false
+			}
+			cl, isCall := ex.Tuple.(*ssa.Call)
+			return isCall && strings.HasSuffix(calleeName(&cl.Call), "CellBuffer).GetContent")
+		}
+		src := ""
+		arg := derefCell(cc.Args[1])
+		if fromGetContent(arg, 0) {
+			src = "GetContent#0"
+		} else if u, ok := arg.(*ssa.UnOp); ok {
+			// range element of combc = GetContent#1
+			if ia, isIA := u.X.(*ssa.IndexAddr); isIA && fromGetContent(ia.X, 1) {
+				src = "GetContent#1[i]"
+			}
+		}
+		out = append(out, encodeRuneFeed{d.in, src, d.rawGuards()})
+	}
+	return out
 }
